@@ -161,6 +161,15 @@ func (s *twSys) apply(op string, idx int) (applicable bool) {
 	if fmt.Sprint(got) != fmt.Sprint(expectFired) {
 		s.r.Failf("%s at tick %d: fired %v, want %v", op, s.T, got, expectFired)
 	}
+	if !s.wasDrained && !s.stopped {
+		for k, m := range s.model {
+			if v, ok := s.w.timers.Get(k); ok {
+				if pe := v.(*positionEntry); pe.item.value != m.val {
+					s.r.Failf("%s: pending task %s carries value %v, latest value set is %s", op, k, pe.item.value, m.val)
+				}
+			}
+		}
+	}
 	if f[0] == "drain" && wantErr == nil {
 		var want []string
 		for k, m := range s.model {
@@ -190,11 +199,21 @@ func (s *twSys) canon() string {
 		var es []string
 		for e := s.w.slots[pos].Front(); e != nil; e = e.Next() {
 			t := e.Value.(*timingEntry)
-			es = append(es, fmt.Sprintf("%v/c%d/d%d/r%v", t.key, t.circle, t.diff, t.removed))
+			if t.removed {
+				continue // tombstones can never fire and vanish at the next scan: no future depends on them
+			}
+			es = append(es, fmt.Sprintf("%v/c%d/d%d", t.key, t.circle, t.diff))
 		}
 		impl = append(impl, strings.Join(es, ","))
 	}
-	return fmt.Sprintf("%v|%v|dr=%v|st=%v|%s", parts, s.T%s.n, s.wasDrained, s.stopped, strings.Join(impl, ";"))
+	var idx []string
+	s.w.timers.Range(func(k, v any) bool {
+		pe := v.(*positionEntry)
+		idx = append(idx, fmt.Sprintf("%v@%d/c%d/d%d", k, (pe.pos-s.w.tickedPos-1+2*s.n)%s.n, pe.item.circle, pe.item.diff))
+		return true
+	})
+	sort.Strings(idx)
+	return fmt.Sprintf("%v|%v|dr=%v|st=%v|%s|idx%v", parts, s.T%s.n, s.wasDrained, s.stopped, strings.Join(impl, ";"), idx)
 }
 
 func twOps(n int, keys []string, thorough bool) []string {
@@ -238,7 +257,7 @@ func TestVerifTimingWheel(t *testing.T) {
 	var cfgs []cfg
 	if vrt.Thorough() {
 		for n := 1; n <= 5; n++ {
-			cfgs = append(cfgs, cfg{n, []string{"a"}, 8}, cfg{n, []string{"a", "b"}, 6})
+			cfgs = append(cfgs, cfg{n, []string{"a"}, 60}, cfg{n, []string{"a", "b"}, 60})
 		}
 	} else {
 		for n := 1; n <= 4; n++ {
@@ -246,8 +265,36 @@ func TestVerifTimingWheel(t *testing.T) {
 			if n <= 2 {
 				d1 = 6
 			}
-			cfgs = append(cfgs, cfg{n, []string{"a"}, d1}, cfg{n, []string{"a", "b"}, 4})
+			_ = d1
+			cfgs = append(cfgs, cfg{n, []string{"a"}, 40}, cfg{n, []string{"a", "b"}, 40})
 		}
+	}
+	// saturation: a small alphabet explored to a fixpoint (every reachable state, any depth)
+	satN := []int{2, 3}
+	if vrt.Thorough() {
+		satN = []int{2, 3, 4, 5}
+	}
+	for j, n := range satN {
+		if !vrt.Shard(len(cfgs) + j) {
+			continue
+		}
+		n := n
+		ops := []string{"tick", "rm:a"}
+		for d := 1; d <= 2*n+1; d++ {
+			ops = append(ops, fmt.Sprintf("set:a:%d", d), fmt.Sprintf("move:a:%d", d))
+		}
+		vrt.BFS(vrt.Options{Name: fmt.Sprintf("timingwheel/saturation/slots=%d/keys=1", n), Budget: vrt.FairBudget(1)}, 40, ops, func(r *vrt.Run, hist []string) vrt.Step {
+			s := newTwSys(r, n)
+			for i, op := range hist {
+				if !s.apply(op, i) {
+					return vrt.Step{}
+				}
+				if r.Failed() {
+					return vrt.Step{Canon: "failed"}
+				}
+			}
+			return vrt.Step{Canon: s.canon()}
+		})
 	}
 	for i, c := range cfgs {
 		if !vrt.Shard(i) {
@@ -255,7 +302,7 @@ func TestVerifTimingWheel(t *testing.T) {
 		}
 		c := c
 		ops := twOps(c.n, c.keys, vrt.Thorough())
-		vrt.BFS(vrt.Options{Name: fmt.Sprintf("timingwheel/slots=%d/keys=%d", c.n, len(c.keys))}, c.depth, ops, func(r *vrt.Run, hist []string) vrt.Step {
+		vrt.BFS(vrt.Options{Name: fmt.Sprintf("timingwheel/slots=%d/keys=%d", c.n, len(c.keys)), Budget: vrt.FairBudget(1)}, c.depth, ops, func(r *vrt.Run, hist []string) vrt.Step {
 			s := newTwSys(r, c.n)
 			for i, op := range hist {
 				ok := s.apply(op, i)
